@@ -146,6 +146,7 @@ def ncomp_from_gmm(vals: np.ndarray,
                    scores: str = 'BIC',
                    rescale_0_to_x: Union[float, None] = None,
                    random_seed: int = 42,
+                   time_order: Union[np.ndarray, None] = None,
                    **kwargs: dict) -> tuple:
     """ Runs a Gaussian Mixture Model on 1-D data, to determine if it contains 1, 2, or 3
     components.
@@ -168,6 +169,8 @@ def ncomp_from_gmm(vals: np.ndarray,
         random_seed (int, optional): used to reset **temporarily** the value of
             :py:func:`numpy.random.seed` to ensure repeatable results. Defaults to 42, because it
             is the Answer to the Ultimate Question of Life, the Universe, and Everything.
+        time_order (ndarray, optional): indices that sort vals in time (most recent last), used to
+            compute the base height of the components. Defaults to None = vals is already ordered.
         **kwargs (dict, optional): these will be fed to `best_gmm()`.
 
     Returns:
@@ -258,10 +261,12 @@ def ncomp_from_gmm(vals: np.ndarray,
         return best_ncomp, best_ids, abics
 
     # If I found more than one component, let's make sure that they are sufficiently far apart.
-    # First, let's compute the component base height
+    # First, let's compute the component base height (from the time-ordered values)
+    if time_order is None:
+        time_order = np.arange(len(vals_orig))
     base_comp_heights = [
         utils.calc_base_height(
-            vals_orig[best_ids == i].flatten(),
+            vals_orig[time_order][best_ids[time_order] == i].flatten(),
             layer_base_params['lookback_perc'],
             layer_base_params['height_perc']
         ) for i in range(ncomp[best_model_ind])
